@@ -271,11 +271,21 @@ func (client *client) IsConnected() bool {
 	return client.Status() == Connected
 }
 
+// id returns the client id for use by the goroutines that run while the CONNECT is still being processed
+// (readLoop, writeLoop, setError): client.opts is written by connectWithTimeOut until the connection is established,
+// so it must not be read before that. Packets exchanged earlier are booked under the empty client id.
+func (client *client) id() string {
+	if client.IsConnected() {
+		return client.opts.ClientID
+	}
+	return ""
+}
+
 func (client *client) setError(err error) {
 	client.errOnce.Do(func() {
 		if err != nil && err != io.EOF {
 			zaplog.Warn("connection lost",
-				zap.String("client_id", client.opts.ClientID),
+				zap.String("client_id", client.id()),
 				zap.String("remote_addr", client.rwc.RemoteAddr().String()),
 				zap.Error(err))
 			client.err = err
@@ -328,13 +338,13 @@ func (client *client) writeLoop() {
 					switch packet.(type) {
 					case *packets.Disconnect:
 						if client.writePacket(packet) == nil {
-							srv.statsManager.packetSent(packet, client.opts.ClientID)
+							srv.statsManager.packetSent(packet, client.id())
 						}
 						_ = client.rwc.Close()
 						return
 					case *packets.Connack:
 						if client.writePacket(packet) == nil {
-							srv.statsManager.packetSent(packet, client.opts.ClientID)
+							srv.statsManager.packetSent(packet, client.id())
 						}
 					}
 				default:
@@ -376,7 +386,7 @@ func (client *client) writeLoop() {
 			if err != nil {
 				return
 			}
-			srv.statsManager.packetSent(packet, client.opts.ClientID)
+			srv.statsManager.packetSent(packet, client.id())
 			if _, ok := packet.(*packets.Disconnect); ok {
 				_ = client.rwc.Close()
 				return
@@ -444,7 +454,7 @@ func (client *client) readLoop() {
 		}
 
 		if pub, ok := packet.(*packets.Publish); ok {
-			srv.statsManager.messageReceived(pub.Qos, client.opts.ClientID)
+			srv.statsManager.messageReceived(pub.Qos, client.id())
 			if client.version == packets.Version5 && pub.Qos > packets.Qos0 {
 				err = client.tryDecServerQuota()
 				if err != nil {
